@@ -30,6 +30,11 @@ DOMAINS = ['Check', 'Design']
 
 CAP_VALID = 300
 
+# the conjuncts of DerivedFrag.efrag_why, in order
+EFRAG_WHY = ["hidden-factor", "factor-without-level", "derived-from-factor-absent-in-some-trial", "sustain-not-dividing-trials",
+             "sustain-constraint-missing", "LatinSquare-or-ExactlyKMultipleInARow",
+             "constraint-guard(ranges/pin/sequential-preamble)", "crossing-size-is-not-the-weight-of-the-unexcluded-combinations",
+             "crossing-geometry-or-crossed-factor-absent-after-preamble"]
 # the conjuncts of DerivedFrag.dfrag_why, in order
 DFRAG_WHY = ["hidden-factor", "factor-without-level", "derived-from-factor-absent-in-some-trial", "sustain-not-dividing-trials",
              "sustain-constraint-missing", "LatinSquare-or-ExactlyKMultipleInARow", "Exclude-of-crossed-factor",
@@ -634,8 +639,25 @@ def run(ctx, res):
             first = why.index(False) if False in why else len(why)
             stats["theorem-fragment-derived:programs:out:" + (DFRAG_WHY[first] if first < len(DFRAG_WHY) else "?")] += 1
         dfrag_list = [(next(dit, None) if r is not None else None) for r in pr["rows"]]
+        # the fragment of theorem C17_mismatch_iff_valid_excluded (efrag: dfrag + Exclude of crossed levels)
+        in_efrag = False
+        eit = iter(())
+        if not fv.startswith("!") and len(fr) >= 9:
+            in_efrag = (fr[6] == "true")
+            eit = iter(fr[7])
+            if in_dfrag and not in_efrag:
+                stats["theorem-fragment-excluded:programs:dfrag-but-not-efrag"] += 1
+            if in_efrag and not in_dfrag:
+                stats["theorem-fragment-excluded:programs:in:beyond-dfrag"] += 1
+            if not in_efrag:
+                why = [x == "true" for x in fr[8]]
+                first = why.index(False) if False in why else len(why)
+                stats["theorem-fragment-excluded:programs:out:" + (EFRAG_WHY[first] if first < len(EFRAG_WHY) else "?")] += 1
+        stats["theorem-fragment-excluded:programs:" + ("in" if in_efrag else "out")] += 1
+        efrag_list = [(next(eit, None) if r is not None else None) for r in pr["rows"]]
         nontrivial = bool(program["constraints"]) or any(f["kind"] == "derived" for f in program["factors"]) or bool(blk.crossings)
-        for (kind, q), smp, wv, valid, fragv, dfragv in zip(pr["cands"], pr["samples"], pr["wires"], ovalid, frag_list, dfrag_list):
+        for (kind, q), smp, wv, valid, fragv, dfragv, efragv in zip(pr["cands"], pr["samples"], pr["wires"], ovalid, frag_list,
+                                                                    dfrag_list, efrag_list):
             if wv is None:
                 stats["cands:unresolvable-key"] += 1
                 continue
@@ -677,6 +699,17 @@ def run(ctx, res):
                     stats["theorem-fragment-derived:candidates:beyond-nfrag"] += 1
                 if (dfragv[2] == "true") != valid:
                     stats["theorem-fragment-derived:code_sem-vs-doc_sem-differ"] += 1
+            # --- the same for C17_mismatch_iff_valid_excluded: inside efrag and wf_rowsb_d, no_mismatch = valid_b (code_sem_x fb)
+            if in_efrag and efragv is not None and efragv[0] == "true":
+                ok_t = (efragv[1] == efragv[2])
+                res.layer("theorem-instance:no_mismatch=valid_b(code_sem_x)", ok_t)
+                if not ok_t:
+                    corr_bad.append((pr["name"], program, smp, "extracted theorem instance (excluded) fails: %r" % (efragv,)))
+                stats["theorem-fragment-excluded:candidates"] += 1
+                if not in_dfrag:
+                    stats["theorem-fragment-excluded:candidates:beyond-dfrag"] += 1
+                if (efragv[2] == "true") != valid:
+                    stats["theorem-fragment-excluded:code_sem-vs-doc_sem-differ"] += 1
             # --- search: the property itself, on candidates of its domain
             dom = in_domain(ds, pr["app"], q)
             stats["domain:" + ("in" if dom else "out")] += 1
